@@ -664,6 +664,18 @@ func runRange(args []string) error {
 		return runRangeReplay(t, *dir, *replay, &nsetup)
 	}
 	switch *mode {
+	case "expiry":
+		// leases that EXPIRE (1 s lease, 2.1 s ticks) before a restart: the code has no expiry - an expired binding is still a
+		// binding, restored by a restart, and its address is nobody else's
+		fixed := [][]string{
+			{"D0", "D1", "tick", "restart", "D2", "D0", "D1", "D3"},
+			{"D0", "tick", "D1", "restart", "D2", "D3", "D0", "restart", "D1", "D4"},
+		}
+		for k := *shard; k < len(fixed) && k < *count; k += *shards {
+			r := rand.New(rand.NewSource(*seed*15485863 + int64(k)))
+			s := newRangeScn(t, *dir, k, mkRangeGeom("10.0.0.9", 4), 1, r, true, &nsetup)
+			s.run(fixed[k])
+		}
 	case "fault":
 		// histories with ONE window in which the lease database cannot be written (somebody else's write
 		// transaction), crash points after every event outside the window
@@ -744,6 +756,12 @@ func runRange(args []string) error {
 				r := rand.New(rand.NewSource(*seed*7919 + int64(k)))
 				nn := sizes[k%len(sizes)]
 				st := "10.20.30.200"
+				switch k % 8 {
+				case 2:
+					st = "10.0.0.1" // .1 ... .N: addresses of one, two (and three) digits
+				case 6:
+					st = "10.0.0.95" // crosses .99 / .100
+				}
 				if k%4 == 1 {
 					e := make(net.IP, 4)
 					binary.BigEndian.PutUint32(e, 0xffffffff-uint32(nn-1))
